@@ -72,7 +72,9 @@ def r1_mask(ctx, facts):
                 if c.get("name") != "contains" or "BitSet" not in c.get("path", ""):
                     return False
                 mo = b.arg_origin(gbb, 0)
-                return mo[0] == "param" and mo[1] == 1 and mo[2][:1] == ("bitset",) and entity_of_index(b, b.arg_origin(gbb, 1)) == x
+                # the restricted view's own mask: the bit set reached from `self` (a paired item holds exactly one - directly or inside a
+                # private membership struct)
+                return mo[0] == "param" and mo[1] == 1 and mo[2] and entity_of_index(b, b.arg_origin(gbb, 1)) == x
             edges = b.bool_guard_edges(is_contains)
             ok = bool(edges) and bb not in b.reachable(0, removed={e["true_edge"] for e in edges})
             ctx.ob("C13-R1", "%s raw access under the restricted mask" % b.path, ok, b.loc(bb),
